@@ -218,6 +218,9 @@ func (m *SessionManager) CreateSession(clientMAC, serverMAC net.HardwareAddr) (*
 	m.sessions[m.nextID] = session
 	m.macToSession[clientMAC.String()] = m.nextID
 	m.nextID++
+	if m.nextID == 0 {
+		m.nextID = 1 // Skip 0 (reserved) when the 16-bit counter wraps
+	}
 
 	return session, nil
 }
@@ -245,8 +248,25 @@ func (m *SessionManager) RemoveSession(id uint16) {
 	defer m.mu.Unlock()
 
 	if session, ok := m.sessions[id]; ok {
-		delete(m.macToSession, session.ClientMAC.String())
 		delete(m.sessions, id)
+		m.unindexLocked(id, session)
+	}
+}
+
+// unindexLocked drops the MAC index entry of a removed session. The entry is only touched if it
+// refers to that session; if another live session from the same MAC exists the index moves to it.
+// Must be called with m.mu held, after the session was deleted from m.sessions.
+func (m *SessionManager) unindexLocked(id uint16, session *Session) {
+	mac := session.ClientMAC.String()
+	if m.macToSession[mac] != id {
+		return
+	}
+	delete(m.macToSession, mac)
+	for otherID, other := range m.sessions {
+		if other.ClientMAC.String() == mac {
+			m.macToSession[mac] = otherID
+			break
+		}
 	}
 }
 
@@ -283,8 +303,8 @@ func (m *SessionManager) CleanupExpired(timeout time.Duration) int {
 		session.mu.RUnlock()
 
 		if inactive {
-			delete(m.macToSession, session.ClientMAC.String())
 			delete(m.sessions, id)
+			m.unindexLocked(id, session)
 			removed++
 		}
 	}
